@@ -140,6 +140,12 @@ def step (cs : CaseSt) (op obs : String) : CaseSt × R :=
   let toks := words op
   let fs := fieldsOf toks
   let ofs := fieldsOf (words obs)
+  -- model-free storm summaries: every counter must be zero (a panic is observed as a crash below)
+  if toks.headD "?" == "stopstorm" && !(obs.startsWith "crash:" || obs.startsWith "hang:") then
+    let bad := ["hung", "notrun", "twice"].filter (fun k => getNat ofs k != some 0)
+    (cs, { mon := bad.map (fun k => if k == "hung" then "C19.no_crash_no_hang" else "C19.stop_runs_accepted_once"),
+           diffs := if bad.isEmpty then [] else ["storm"], branch := "stopstorm", model := "storm hung=0 notrun=0 twice=0" })
+  else
   let crashed := obs.startsWith "crash:" || obs.startsWith "hang:" || (obs.splitOn "noquiesce").length > 1
   if cs.dead then
     -- model and implementation have diverged: only the clauses that need no model state are still evaluated
@@ -405,6 +411,7 @@ def simStep (st : SimSt) (op : String) : SimSt × String :=
     if setPrioRet s id == .nil then
       (if (findId (stored s) id).isSome then fin (orSame (step? s (.setPrio id p))) "ret=nil " else fin s "ret=nil ")
     else fin s "ret=error "
+  | "stopstorm" => (st, "storm hung=0 notrun=0 twice=0")   -- a model-free stimulus: nothing for the model to answer
   | "stop" => fin (orSame (step? s .stop)) ""
   | "brk" => fin (orSame (step? s .break_)) ""
   | _ => fin s ""
